@@ -8,6 +8,7 @@ that simulate() actually used.
 """
 from __future__ import annotations
 
+import json
 import os
 
 import datetime as dt
@@ -43,6 +44,9 @@ def run_case(case):
         return r
     res = core.Result(evals=0)
     k = case["kind"]
+    if k == "rerun":
+        run_rerun(case, res)
+        return res
     if k == "time_convert":
         t0 = dt.datetime(2019, 1, 1)
         for h in range(case["lo"], case["hi"]):
@@ -162,6 +166,48 @@ def run_case(case):
     return res
 
 
+def run_rerun(case, res):
+    """one manager used for two designs in a row (a study: design, write, change the loads, design, write - same labels): the files of
+    the second run must echo the second run's loads, field and g-function"""
+    import csv
+    import io
+
+    from vf import physics
+
+    m = physics.manager(case["method"], pipe="single", load=case["loads"][0], months=12)
+    outs = []
+    for step, ld in enumerate(case["loads"]):
+        if step > 0:
+            m.set_ground_loads_from_hourly_list(list(physics.loads(ld)))
+            m.set_design(flow_rate=0.3, flow_type_str="borehole")
+        e = physics.find(m)
+        res["evals"] += 1
+        if e is not None:
+            res.bump("rerun_design_failed")
+            return
+        d, files = physics.write_outputs(m, tag="study")  # the same four labels every time
+        physics.cleanup(d)
+        outs.append((ld, files, [list(map(float, c)) for c in m._search.ghe.gFunction.bore_locations], float(m._search.ghe.bhe.b.H)))
+    ld, files, coords, h = outs[-1]
+    c1 = dict(case)
+    want = list(physics.loads(ld))
+    lrows = list(csv.reader(io.StringIO(files["Loadings.csv"])))[1:]
+    if len(lrows) != 8760 or any(abs(float(r[4]) - w) > 1e-9 * max(1.0, abs(w)) for r, w in zip(lrows, want)):
+        res["violations"].append(core.viol("loadings_table_wrong", c1, msg=f"run {len(outs)} on one manager ({ld} loads after {case['loads'][:-1]}): Loadings.csv has {len(lrows)} rows / does not echo this run's loads", rerun=True))
+    brows = [list(map(float, r)) for r in list(csv.reader(io.StringIO(files["BoreFieldData.csv"])))[1:]]
+    if brows != coords:
+        res["violations"].append(core.viol("borefield_table_wrong", c1, msg=f"run {len(outs)} on one manager: BoreFieldData.csv lists {len(brows)} boreholes, the design returned {len(coords)}", rerun=True))
+    head = list(csv.reader(io.StringIO(files["Gfunction.csv"])))[0]
+    if f"H: {h:0.2f} m" not in head[1]:
+        res["violations"].append(core.viol("gfunction_table_differs_from_simulated_curve", c1, msg=f"run {len(outs)} on one manager: Gfunction.csv is headed {head[1]!r}, the design's height is {h:0.2f} m", rerun=True))
+    js = json.loads(files["SimulationSummary.json"])
+    if js["ghe_system"]["number_of_boreholes"] != len(coords):
+        res["violations"].append(core.viol("borefield_table_wrong", c1, msg=f"run {len(outs)} on one manager: the summary reports {js['ghe_system']['number_of_boreholes']} boreholes, the design has {len(coords)}", rerun=True, where="summary"))
+    res.outcome("reruns_on_one_manager")
+    res["nontrivial"] += 1
+    res["sample"] = dict(case)
+
+
 def make_loads(kind):
     if kind == "office":
         return LG.atlanta_like()
@@ -209,11 +255,15 @@ def main(run: core.Run, only=None):
         real += [{"engine": "B", "method": mth, "pipe": p, "flow": "borehole", "load": "spiky", "months": 37} for mth, p in
                  (("rectangle", "double_series"), ("birectangle", "single"), ("bizoned", "double_parallel"), ("constrained", "single"))]
     run.drive(real, family="real-runs")
+    reruns = [{"kind": "rerun", "method": "nearsquare", "loads": ["office", "mirror"]}]
+    if not quick:
+        reruns += [{"kind": "rerun", "method": "rectangle", "loads": ["balanced", "office", "spiky"]}, {"kind": "rerun", "method": "rowwise", "loads": ["mirror", "office"]}]
+    run.drive(reruns, family="reruns-on-one-manager", chunksize=1)
     return run.finish(
         rule="(a) every hour of the year; (b) every quarter hour of the first 3 (quick) / 30 (thorough) years; (c) row builders on real "
              "GHE objects for field x load list x pipe type; one evaluation = one conversion or one table; non-trivial = first/last "
              "day of a month, month ends, every table",
         bounds={"hours": 8760, "years_for_hours_to_month": years, "fields": fields},
         assumptions=["non-leap calendar (datetime year 2019)", "the curve used in the simulation is captured at BaseGHE._simulate_detailed"],
-        require_outcomes=("hours_labelled", "quarter_hours_converted", "tables_built", "real_runs"),
+        require_outcomes=("hours_labelled", "quarter_hours_converted", "tables_built", "real_runs", "reruns_on_one_manager"),
     )
